@@ -1,6 +1,17 @@
 """C08 — stylesheet output keeps the token stream and all meaningful whitespace (DESIGN.md §9 C08)."""
 from . import csscheck
 
+THM_WS = [
+    "GE.Css.convCls_marks",
+    "GE.Css.qualLoop_marks",
+    "GE.Css.convRpx_marks",
+    "GE.Css.selMarks_flat",
+    "GE.Css.ruleMarks_flat",
+    "GE.Css.collapse_keeps_inner_ws",
+    "GE.Css.collapse_adjacent",
+    "GE.Css.calc_keeps_space_before_sign",
+    "GE.Css.calc_keeps_space_after_sign",
+]
 THEOREMS = [
     "GE.Css.rule_rewrite_exact",
     "GE.Css.convRpx_wrote",
@@ -29,10 +40,15 @@ def run(chk):
                 "descendant combinators and calc +/- spacing kept, spelling-sensitive values re-read to the same value")
     chk.trusted = csscheck.TRUSTED
     chk.assumptions = ["shape theorem: for one style rule the sequence of written token kinds (brackets included, whitespace/comments excluded) "
-                       "equals the input's (rule_rewrite_exact.shs); PARTIAL: which whitespace survives (descendant combinators, calc) and the "
-                       "separator table `needsSep` making adjacent tokens re-tokenise apart are checked by oracle and correspondence, "
-                       "not by a theorem; the serializer of single tokens is cssparser's"]
+                       "equals the input's (rule_rewrite_exact.shs); whitespace theorems (GE/Thm/C08Ws.lean): the selector loops write exactly the collapse of the "
+                       "input's whitespace (leading / trailing dropped, every inner run kept as one: a descendant combinator always survives, at every nesting "
+                       "depth of selector functions; none is invented), and in calc() the whitespace next to + / - is written. PARTIAL: the separator table "
+                       "`needsSep` making adjacent tokens re-tokenise apart and the at-rule dispatch are checked by oracle and correspondence, not by a theorem; "
+                       "the serializer of single tokens is cssparser's"]
     csscheck.run_property(chk, "C08", "GE.Thm.C09", THEOREMS[:4], 700, 12000, extra_cases=extra_cases)
+    failed, log = chk.prove("GE.Thm.C08Ws", THM_WS)
+    for t in failed:
+        chk.violation("proof", f"obligation {t} no longer checks", theorem=t, log=log[-3000:])
     failed, log = chk.prove("GE.Thm.C19", THEOREMS[4:])
     for t in failed:
         chk.violation("proof", f"obligation {t} no longer checks", theorem=t, log=log[-3000:])
